@@ -155,6 +155,9 @@ func (w *World) judgePersist(op *Op, t *Tree, root *mast.Root, reach []string, s
 			}
 			return
 		}
+		if t.unsure {
+			return
+		}
 		// C04 oracle A: the unique reference tree
 		ref := BuildRef(t.model.Entries(), w.layerOf, w.cfg.BF)
 		pred := w.sizePredicate(n)
